@@ -2,7 +2,7 @@
 # run every registered check (quick or thorough) on /repo, one after the other; summary on stdout
 cd "$(dirname "$0")/.."
 tier=${1:-quick}
-for p in C01 C02 C03 C04 C05 C06 C07 C08 C09 C10 C11 C12 C13 C14 C16 C19; do
+for p in ${RUN_ALL_ORDER:-C01 C02 C03 C04 C05 C06 C07 C08 C09 C10 C11 C12 C13 C14 C16 C19}; do
   s=$(date +%s)
   ./check $p --tier $tier > /tmp/run_all_$p.out 2>&1
   rc=$?
